@@ -60,6 +60,11 @@ Proof.
   intros Hn. apply Nat.eqb_neq. intros ->. unfold takes_none, takes_required in *. rewrite Hreq in Hn. discriminate.
 Qed.
 
+Lemma opt_not_af i : takes_optional c i -> Nat.eqb i (af_idx af) = false.
+Proof.
+  intros Hn. apply Nat.eqb_neq. intros ->. unfold takes_optional, takes_required in *. rewrite Hreq in Hn. discriminate.
+Qed.
+
 Lemma loop_af_giter ic fuel : forall s cur,
   loop_af c af sub fuel s ic cur
   = giter hstate (fun s e cur => step_af c af sub s ic e cur) EInvalidArgument fuel s cur.
@@ -74,7 +79,7 @@ Theorem words_af_spelled ic us ws s :
 Proof.
   intros Hsp. unfold words_af.
   rewrite <- (gspell_eval nat hstate (fun _ => True) (fun s e cur => step_af c af sub s ic e cur) EInvalidArgument
-                (af_ustep ic) (long_name c) (short_name c) (takes_none c) (takes_required c))
+                (af_ustep ic) (long_name c) (short_name c) (takes_none c) (takes_required c) (takes_optional c))
     with (ws := ws); auto.
   - destruct (first ws); cbn [bind]; auto. apply loop_af_giter.
   - intros i w (Hw & He & _). auto.
@@ -98,6 +103,17 @@ Proof.
     destruct (Nat.eqb i (af_idx af)).
     + rewrite Hnx. cbn [bind]. reflexivity.
     + unfold eval_single. apply value_step; auto.
+  - (* optional value, long key, no value *)
+    intros s0 i w cur _ (Hw & He & k & Hk & Hlk) Ho Hn. cbn [af_ustep step_af].
+    rewrite Hk. cbn [bind]. unfold step_key. rewrite Hlk. cbn [bind is_af]. rewrite (opt_not_af i Ho).
+    unfold eval_single. rewrite Hk. cbn [bind]. apply opt_none_step; auto.
+  - intros s0 i ch cur _ (Hc & Hlk) Ho Hn. cbn [af_ustep step_af]. unfold step_key.
+    rewrite Hlk. cbn [bind is_af]. rewrite (opt_not_af i Ho). unfold eval_single. apply opt_none_step; auto.
+  - intros s0 i w cur v it2 _ (Hw & He & k & Hk & Hlk) Ho Hn. cbn [af_ustep step_af].
+    rewrite Hk. cbn [bind]. unfold step_key. rewrite Hlk. cbn [bind is_af]. rewrite (opt_not_af i Ho).
+    unfold eval_single. rewrite Hk. cbn [bind]. apply opt_val_step; auto.
+  - intros s0 i ch cur v it2 _ (Hc & Hlk) Ho Hn. cbn [af_ustep step_af]. unfold step_key.
+    rewrite Hlk. cbn [bind is_af]. rewrite (opt_not_af i Ho). unfold eval_single. apply opt_val_step; auto.
   - (* free value *)
     intros s0 v cur _. cbn [af_ustep step_af]. apply free_step_single.
 Qed.
